@@ -486,6 +486,36 @@ pub mod shim {
     pub assume_specification [u8::is_ascii_digit] (b: &u8) -> (r: bool)
         ensures r == (0x30 <= *b <= 0x39);
 
+    // std functions the unchanged tree does not call; specified (documented behaviour) so that an edit which uses
+    // them is decided instead of ending "unsupported"
+    pub assume_specification [u8::abs_diff] (a: u8, b: u8) -> (r: u8) ensures r == (if a >= b { a - b } else { b - a });
+    pub assume_specification [u16::abs_diff] (a: u16, b: u16) -> (r: u16) ensures r == (if a >= b { a - b } else { b - a });
+    pub assume_specification [u32::abs_diff] (a: u32, b: u32) -> (r: u32) ensures r == (if a >= b { a - b } else { b - a });
+    pub assume_specification [usize::abs_diff] (a: usize, b: usize) -> (r: usize) ensures r == (if a >= b { a - b } else { b - a });
+    pub assume_specification [u16::swap_bytes] (a: u16) -> (r: u16) ensures r == (a % 256) * 256 + a / 256;
+    pub assume_specification [u32::swap_bytes] (a: u32) -> (r: u32)
+        ensures r == (a % 256) * 0x1000000 + ((a / 256) % 256) * 0x10000 + ((a / 0x10000) % 256) * 256 + a / 0x1000000;
+    pub assume_specification [u8::is_ascii_uppercase] (b: &u8) -> (r: bool) ensures r == (0x41 <= *b <= 0x5a);
+    pub assume_specification [u8::is_ascii_lowercase] (b: &u8) -> (r: bool) ensures r == (0x61 <= *b <= 0x7a);
+    pub assume_specification [u8::is_ascii_alphabetic] (b: &u8) -> (r: bool) ensures r == ((0x41 <= *b <= 0x5a) || (0x61 <= *b <= 0x7a));
+    pub assume_specification [u8::is_ascii_alphanumeric] (b: &u8) -> (r: bool)
+        ensures r == ((0x41 <= *b <= 0x5a) || (0x61 <= *b <= 0x7a) || (0x30 <= *b <= 0x39));
+    pub assume_specification [u8::is_ascii_whitespace] (b: &u8) -> (r: bool)
+        ensures r == (*b == 0x20 || *b == 0x09 || *b == 0x0a || *b == 0x0c || *b == 0x0d);
+    pub assume_specification [u8::is_ascii] (b: &u8) -> (r: bool) ensures r == (*b < 128);
+    pub assume_specification [u8::to_ascii_uppercase] (b: &u8) -> (r: u8) ensures r == (if 0x61 <= *b <= 0x7a { (*b - 32) as u8 } else { *b });
+    pub assume_specification [u8::to_ascii_lowercase] (b: &u8) -> (r: u8) ensures r == (if 0x41 <= *b <= 0x5a { (*b + 32) as u8 } else { *b });
+    pub assume_specification<T: Copy> [Option::<&T>::copied] (o: Option<&T>) -> (r: Option<T>)
+        ensures r == (match o { Some(x) => Some(*x), None => None });
+    pub assume_specification<T> [bool::then_some::<T>] (b: bool, t: T) -> (r: Option<T>) ensures r == (if b { Some(t) } else { None });
+    pub assume_specification<T> [core::mem::replace::<T>] (dest: &mut T, src: T) -> (r: T) ensures r == *old(dest), *final(dest) == src;
+    pub assume_specification<T> [<[T]>::swap] (s: &mut [T], a: usize, b: usize)
+        requires a < old(s)@.len(), b < old(s)@.len()
+        ensures final(s)@ == old(s)@.update(a as int, old(s)@[b as int]).update(b as int, old(s)@[a as int]);
+    pub assume_specification<T> [<[T]>::reverse] (s: &mut [T]) ensures final(s)@ == old(s)@.reverse();
+    pub assume_specification<T: PartialEq> [<[T]>::contains] (s: &[T], x: &T) -> (r: bool)
+        ensures <T as vstd::std_specs::cmp::PartialEqSpec>::obeys_eq_spec() ==> r == (exists|i: int| 0 <= i < s@.len() && #[trigger] <T as vstd::std_specs::cmp::PartialEqSpec>::eq_spec(&s@[i], x));
+
     pub assume_specification<T, const N: usize> [ <Vec<T> as From<[T; N]>>::from ] (a: [T; N]) -> (r: Vec<T>)
         ensures r@ == a@;
     // std::cmp::min / max (documented: min returns the first argument when equal, max the second)
@@ -588,6 +618,20 @@ pub mod shim {
     pub fn concat2(a: Vec<u8>, b: Vec<u8>) -> (r: Vec<u8>)
         ensures r@ == a@ + b@
     { [a, b].concat() }
+
+    /// rule R35: `v.extend(x)` for x a Vec, a slice, an array or a reference to one (Vec::extend is generic over
+    /// IntoIterator, which has no specification): assumed contract = the elements of x are appended in order
+    pub trait ExtendShim<S> { fn extend_v(&mut self, s: S); }
+    impl<T: Copy> ExtendShim<Vec<T>> for Vec<T> {
+        #[verifier::external_body] fn extend_v(&mut self, s: Vec<T>) ensures final(self)@ == old(self)@ + s@ { self.extend(s) } }
+    impl<'a, T: Copy> ExtendShim<&'a Vec<T>> for Vec<T> {
+        #[verifier::external_body] fn extend_v(&mut self, s: &'a Vec<T>) ensures final(self)@ == old(self)@ + s@ { self.extend(s) } }
+    impl<'a, T: Copy> ExtendShim<&'a [T]> for Vec<T> {
+        #[verifier::external_body] fn extend_v(&mut self, s: &'a [T]) ensures final(self)@ == old(self)@ + s@ { self.extend(s) } }
+    impl<T: Copy, const N: usize> ExtendShim<[T; N]> for Vec<T> {
+        #[verifier::external_body] fn extend_v(&mut self, s: [T; N]) ensures final(self)@ == old(self)@ + s@ { self.extend(s) } }
+    impl<'a, T: Copy, const N: usize> ExtendShim<&'a [T; N]> for Vec<T> {
+        #[verifier::external_body] fn extend_v(&mut self, s: &'a [T; N]) ensures final(self)@ == old(self)@ + s@ { self.extend(s) } }
 
     /// rule R10: `x.to_be_bytes()` / `x.to_le_bytes()`
     pub trait BytesShim: Sized { type Out; fn to_be_bytes_v(self) -> Self::Out; fn to_le_bytes_v(self) -> Self::Out; }
